@@ -60,6 +60,7 @@ func runNBRandom(w *rt.World, res *hx.Result, kind int) *hx.Violation {
 		clN[c] = 1 + hx.G(maxReqs)
 	}
 	nClients := 2 + hx.G(maxClients-1)
+	edgeIDs := hx.G(3) == 0
 	reuseIDs := hx.G(2) == 0 // with shareHosts: client 2k+1 reuses the transaction ids of client 2k
 	prevBase := uint16(0)
 	shareHosts := hx.G(3) == 0 // clients 2k and 2k+1 sit on the same host (several connections from one address)
@@ -149,24 +150,29 @@ func runNBRandom(w *rt.World, res *hx.Result, kind int) *hx.Violation {
 				qn = []string{churnName}
 			}
 			idc += 1 + uint16(g.names[1]%3)
+			rid := idc
+			if edgeIDs && r == 0 && c < 2 && !(reuseIDs && shareHosts) {
+				rid = [...]uint16{0x0000, 0xFFFF}[c] // legal transaction ids like any other
+				rt.Probe(PEdgeIDs)
+			}
 			must := false
 			var b []byte
 			if shape := g.names[1] % 12; shape >= 1 && shape <= 5 && !churnQ && g.big != 0 {
-				b = buildVariedQuery(idc, shape, qn, uint16(g.names[2]%2)<<8)
+				b = buildVariedQuery(rid, shape, qn, uint16(g.names[2]%2)<<8)
 			} else {
-				b = buildRequest(idc, 0, uint16(g.names[2]%2)<<8, qn, "", nil, 0, false)
+				b = buildRequest(rid, 0, uint16(g.names[2]%2)<<8, qn, "", nil, 0, false)
 			}
 			if g.big == 2 && r < maxReqs && !churnQ && !cl.tcp {
 				// a request of exactly the size of a receive buffer (576 / 1024 bytes), or one byte off: the datagram
 				// that fills the buffer to the last byte is whole, not truncated
 				target := [...]int{576, 1024, 575, 577, 1023, 1025}[g.names[0]%6]
-				if eb := buildExactSize(idc, target, qn[0]); eb != nil {
+				if eb := buildExactSize(rid, target, qn[0]); eb != nil {
 					b = eb
 					rt.Probe(PExactSize)
 					must = (kind == 1 && target <= 1024) || (kind == 2 && target <= 576)
 				}
 			}
-			cl.reqs = append(cl.reqs, &nbReq{id: idc, bytes: b, sig: stripID(b), tcp: cl.tcp, churn: churnQ, mustAnswer: must})
+			cl.reqs = append(cl.reqs, &nbReq{id: rid, bytes: b, sig: stripID(b), tcp: cl.tcp, churn: churnQ, mustAnswer: must})
 			cl.gaps = append(cl.gaps, g.gap)
 		}
 		if idc < idKeep {
